@@ -436,11 +436,11 @@ func runM3Scenario(run *vlib.Run, caseIdx int, sc m3Scenario) {
 	// wait waits for cond; false = scenario cannot continue
 	wait := func(what string, cond func() bool) bool {
 		steps = append(steps, "wait: "+what)
-		switch vlib.WaitCond(cond, activity, 2*time.Second, 12*time.Second) {
-		case vlib.Reached:
+		switch out, stacks := waitEntry(cond, activity, "(*conn).ServeJSONSocket", 2*time.Second, 12*time.Second); out {
+		case waitReached:
 			return true
-		case vlib.QuiescentNot:
-			violate("connection went quiet before: "+what, map[string]interface{}{"stacks": thunderStacks(nil)})
+		case waitStuck:
+			violate("connection went quiet before: "+what, map[string]interface{}{"stacks": stacks})
 		default:
 			run.Inconclusive(fmt.Sprintf("m3 case %d: still busy while waiting for: %s", caseIdx, what))
 			failed = true
